@@ -3,13 +3,15 @@
          s:hex  isn:n  (sender stream / ISN: used by the Go oracle only, ignored here)
    flags: 1 SYN, 2 FIN, 4 RST, 8 Accept forces *start.
    The variant of the code that is modelled (which repairs are in) defaults to the repaired
-   one; C09_VARIANT=dfky (four 0/1 digits: Difference, FIN, KeepFrom-skip, late SYN) overrides it. *)
+   one; C09_VARIANT=dfky or dfkyab (0/1 digits: Difference, FIN, KeepFrom-skip, late SYN, and the two C11
+   page-accounting repairs: saved pages released at close, saved pages counted in half.pages) overrides it. *)
 open Util
 
 let variant =
   match Sys.getenv_opt "C09_VARIANT" with
-  | Some s when String.length s = 4 -> (s.[0] = '1', s.[1] = '1', s.[2] = '1', s.[3] = '1')
-  | _ -> (true, true, true, true)
+  | Some s when String.length s = 6 -> (s.[0] = '1', s.[1] = '1', s.[2] = '1', s.[3] = '1', s.[4] = '1', s.[5] = '1')
+  | Some s when String.length s = 4 -> (s.[0] = '1', s.[1] = '1', s.[2] = '1', s.[3] = '1', false, false)
+  | _ -> (true, true, true, true, false, false)
 
 let zi s = z_of_int (int_of_string s)
 
@@ -48,9 +50,9 @@ let b2i b = if b then 1 else 0
 let run (id : string) (ops : string list) (out : out_channel) =
   (* ops that the model ignores still count as steps (empty observation), to keep step numbers aligned *)
   let parsed = Stdlib.List.map parse_op ops in
-  let (d, f, k, y) = variant in
+  let (d, f, k, y, va, vb) = variant in
   let mops = Stdlib.List.filter_map (fun x -> x) parsed in
-  let tr = ref (C09Model.run_variant d f k y mops) in
+  let tr = ref (C09Model.run_variant d f k y va vb mops) in
   let tags = Hashtbl.create 8 in
   let stopped = ref false in
   let nprinted = ref 0 in
@@ -117,7 +119,7 @@ let run (id : string) (ops : string list) (out : out_channel) =
         let hops = Stdlib.List.filter_map (fun x -> match x with Some (Some h) -> Some h | _ -> None) hs in
         let back = Stdlib.List.map (C09Spec.op_of sbytes (z_of_int isn)) hops in
         if back <> mops then "ok"   (* not a consistent history of (S, isn): statement does not apply *)
-        else if C09Spec.hist_ok_variant d f k y sbytes (z_of_int isn) hops then "ok" else "FAIL"
+        else if C09Spec.hist_ok_variant d f k y va vb sbytes (z_of_int isn) hops then "ok" else "FAIL"
       end
     | _ -> "ok" in
   Printf.fprintf out "%s\t%d\tspec=%s\n" id !nprinted verdict;
